@@ -27,7 +27,7 @@ As in the top-down case the Rust call stack of executing tasks is not part of th
   - returns with the stack `stk` again, or
   - aborts in a state that satisfies the invariant for the stack `stk'` of the tasks executing at
     the abort point, an extension of `stk`;
-  in both cases no `execute_start`/`execute_end` of a task on `stk` was emitted (`Quiet`).
+  in both cases no `execute_start`/`execute_end` of a task on `stk` was emitted (`QuietB`).
 * Trace part (`BTrc`, for sessions whose trace is `TraceClosed`, e.g. empty): the tracker stream
   satisfies `NoReentry` — every `execute_start t` comes at a point at which all earlier
   executions of `t` have ended — and the open executions are exactly the frames of the stack.
@@ -384,7 +384,7 @@ example : c07buVerdict = some .cyclic := by with_unfolding_all decide
 
 /-- ... through `buRequireNow`: `a` (task 0) was entered from the queue, then `b` (task 1) on
 demand inside `a`'s `require`; each of them exactly once ... -/
-example : c07buS.trace.filter Ev.isExec = [.executeStart 0, .executeStart 1] ∧
+example : c07buS.trace.filter Ev.isExecEv = [.executeStart 0, .executeStart 1] ∧
     countExec 0 c07buS.trace = 1 ∧ countExec 1 c07buS.trace = 1 := by
   with_unfolding_all decide
 
